@@ -67,6 +67,10 @@ def render(c):
         line = line.replace(" R", ' "$(vout 1)" R', 1) if " R" in line else line + ' "$(vout 1)"'
         vh = dict(vh, **{"out.1": chars(c["pair"]) + "\n"})
         a = [chars(c["pair"])] + a
+    if c.get("kv"):
+        # assignment-shaped words as later arguments of the same command (they are arguments, and the produced word is still protected)
+        line += " k=1 j=2"
+        a = a + ["k=1", "j=2"]
     if c.get("realin"):
         # the command also has a real input redirection typed by the user: the produced text must still be an argument
         files = dict(files, fin="input\n")
@@ -154,6 +158,8 @@ def runner(rep, tier, seed, replay):
         cases.append(dict(vs[k], pair=ds[-1 - k]["pay"]))
     cases += [dict(c, **{"del": ("envsub" if k % 2 == 0 else "envbq")}) for k, c in enumerate(cases)
               if c["del"] == "var" and not c.get("realin") and c.get("pair") is None and chars(c["pay"]).strip() == chars(c["pay"]) and chars(c["pay"]) != ""]
+    cases += [dict(c, kv=True) for c in cases if c["del"] in ("var", "bvar", "dsub", "bqsub") and not c.get("realin") and c.get("pair") is None
+              and c["pos"] in ("first", "middle")]
     cases += [dict(c, **{"del": ("nestbq" if k % 2 == 0 else "nestds")}) for k, c in enumerate(cases)
               if c["del"] == "dsub" and not c.get("realin") and c.get("pair") is None and chars(c["pay"]).strip() == chars(c["pay"]) and chars(c["pay"]) != ""]
     cases += [dict(c, **{"del": ("assignvar", "assignsub", "assignbq")[k % 3], "q": "dq", "pos": "middle"}) for k, c in enumerate(cases)
